@@ -35,7 +35,7 @@ ANCHORS = ['cli:UpdateCommand.__call__', 'verify:update_entry_for_path',
            'recursiveloader:ManifestRecursiveLoader.find_timestamp',
            'recursiveloader:ManifestRecursiveLoader.set_timestamp']
 REQUIRED = ['cli:UpdateCommand.__call__', 'rounds_compared', 'timestamps_checked',
-            'inject_runs', 'tz:XXX8', 'tz:XXX-8', 'tz:CET-1CEST,M3.5.0,M10.5.0/3']
+            'inject_runs', 'inject_right_after_read', 'tz:XXX8', 'tz:XXX-8', 'tz:CET-1CEST,M3.5.0,M10.5.0/3']
 ASSUMPTIONS = ['timezones are sampled (POSIX TZ strings without DST)',
                'the system clock does not step during a run']
 
@@ -47,7 +47,7 @@ TZS = ['UTC', 'XXX-8', 'XXX8', 'XXX-5:30', 'XXX12',
 N = {'quick': 600, 'thorough': 20000}
 PER_UNIT = 6
 
-_scan = {'first': None, 'hook': None, 'n': 0}
+_scan = {'first': None, 'hook': None, 'n': 0, 'hash_hook': None, 'hn': 0}
 
 
 def units(tier, seed):
@@ -79,6 +79,23 @@ def install_scan_hook():
         return r
     hooked._vf_wrapped = True
     rl.update_entry_for_path = hooked
+    # ... and the moment right after a file's content has been read, before the
+    # metadata generator does anything else with the descriptor
+    import gemato.verify as gv
+    orig_hash = gv.hash_file
+
+    def hooked_hash(f, *a, **kw):
+        r = orig_hash(f, *a, **kw)
+        if _scan['hash_hook'] is not None:
+            _scan['hn'] += 1
+            try:
+                path = os.readlink('/proc/self/fd/%d' % f.fileno())
+            except (OSError, AttributeError, ValueError):
+                path = None
+            if path:
+                _scan['hash_hook'](path, _scan['hn'])
+        return r
+    gv.hash_file = hooked_hash
 
 
 class NsTime(float):
@@ -153,6 +170,10 @@ def gen_tree(rng):
         parent = rng.choice(dirs)
         nodes.append({'p': (parent + '/' if parent else '') + 'f%d' % i, 't': 'f',
                       'c': {'r': [rng.randrange(1 << 30), rng.choice([1, 10, 100, 5000])]}})
+    for n in nodes:
+        # every sixth file or so starts out empty (size 0 is a size like any other)
+        if n['t'] == 'f' and n['c']['r'][0] % 6 == 0:
+            n['c'] = {'t': ''}
     return {'nodes': nodes}
 
 
@@ -310,6 +331,8 @@ def _apply_ops(rootA, rootB, ops, tprev):
                 new = bytes((b + 1) % 256 for b in old) if old else b''
                 if not old:
                     continue
+            elif old and op['seed'] % 4 == 0:
+                new = b''           # truncated to nothing
             else:
                 new = old + b'+extra'
             for r in (rootA, rootB):
@@ -514,6 +537,13 @@ def run_inject_case(ctx, case):
         hashes = ' '.join(case['hashes'])
         try:
             set_tz(tz)
+            if case.get('early'):
+                # files that have not been touched for a while: an mtime put back
+                # to its previous value lies before the TIMESTAMP
+                old_t = time.time() - 5000
+                for dp, dn, fn in os.walk(root):
+                    for f in fn:
+                        os.utime(os.path.join(dp, f), (old_t, old_t))
             if cli(['create', '--hashes', hashes, '-t', root]) != 0:
                 ctx.count('harness_error')
                 return
@@ -524,8 +554,8 @@ def run_inject_case(ctx, case):
             def hook(path, n):
                 if n == 1 and case.get('slow_t'):
                     time.sleep(1.15)    # the scan crosses a second boundary
-                if n == case['k'] and os.path.basename(path).startswith('f') \
-                        and not victim:
+                if (n == case['k'] or (case.get('early') and n >= case['k'])) \
+                        and os.path.basename(path).startswith('f') and not victim:
                     with open(path, 'rb') as f:
                         old = f.read()
                     if not old:
@@ -535,7 +565,14 @@ def run_inject_case(ctx, case):
                         f.write(new)
                     victim['path'] = path
                     victim['data'] = new
-            _scan['hook'] = hook
+            if case.get('early'):
+                # (in the window between reading the content and the end of the
+                # metadata generator)
+                _scan['hash_hook'] = hook
+                _scan['hn'] = 0
+                ctx.count('inject_right_after_read')
+            else:
+                _scan['hook'] = hook
             # make sure the update has something to write
             with open(os.path.join(root, 'touched-by-test'), 'w') as f:
                 f.write('new')
@@ -545,6 +582,7 @@ def run_inject_case(ctx, case):
                 first_scan = _scan['first']
             finally:
                 _scan['hook'] = None
+                _scan['hash_hook'] = None
             if rc1 == 0 and case.get('slow_t') and first_scan is not None:
                 tnew = read_ts(root)
                 ctx.count('timestamps_checked')
@@ -580,7 +618,8 @@ def run_inject_case(ctx, case):
 def run_inject(u, ctx):
     rng = common.rng_for(ctx.seed, ID, 'inject', u['i'])
     case = {'kind': 'inject', 'tz': TZS[u['i'] % len(TZS)], 'tree': gen_tree(rng),
-            'hashes': ['SHA256'], 'k': rng.randint(1, 4), 'slow_t': u['i'] % 4 == 3}
+            'hashes': ['SHA256'], 'k': rng.randint(1, 4), 'slow_t': u['i'] % 4 == 3,
+            'early': u['i'] % 3 == 1}
     run_inject_case(ctx, case)
     ctx.sample(case, 'inject')
 
